@@ -128,6 +128,13 @@ def check_C03(ctx):
                                  "that each delete_*_core applies exactly (optional swap-with-last, then delete-element) to the properties is tied by the "
                                  "lock step on every property array and checked by the token oracle, not yet stated as a theorem",
                                  "the oracle identifies vertices by their position (a harness-side identity token), i.e. it relies on vertex positions following C03 themselves"])
+    # the tetrahedral kernel's collapse_edge moves property values itself (swap_property_elements per rebuilt tet): its part lives
+    # with the tet/hex component (lock step on every property line + token oracle; known finding collapse-props-parity)
+    try:
+        import checks_tethex
+        checks_tethex.collapse_props_part(ctx)
+    except Exception as ex:
+        ctx.broken.append({"kind": "correspondence", "name": "collapse_edge property part (lib/checks_tethex.collapse_props_part)", "detail": str(ex)[:1500]})
 
 def check_C17(ctx):
     kernel_property(ctx, "C17", "Props/Properties_C17.v", ["swaps", "recycle", "valid", "recycle"], {"SwapV", "SwapE", "SwapF", "SwapC"},
